@@ -302,8 +302,8 @@ CHECKS["C16"] = dict(
 ALSO = {
     "C16": "Also: values built as plain str + looked-at value; an empty but formatted run inside a gap; the same object wrapped again after the caller edited the list the first call returned.",
     "C10": "Also: values cut with [] out of a longer value that had been measured.",
-    "C09": "Also: a second splice on the same receiver; receivers that are pieces of splitlines(True) of a looked-at value.",
-    "C06": "Also: sequences of lookups on ONE object (a value in which a run occurs twice); a plain str that looks like an escape sequence on the left of +.",
+    "C09": "Also: a second splice on the same receiver; receivers that are pieces of splitlines(True) of a looked-at value; a nine-run receiver whose neighbouring runs carry the same attribute names with different values (round 10).",
+    "C06": "Also: sequences of lookups on ONE object (a value in which a run occurs twice); a plain str that looks like an escape sequence on the left of +; a ten-run value of 11 characters with every index and pair of bounds, and * 4, * 5 (round 10).",
     "C01": "Also: every value of a derived pool (each public operation applied to base values whose views were memoised first) must display its own runs; concrete probe runs that start with zero-width characters.",
     "C02": "Also: rows with blank runs whose formatting is visible (inverted / underlined coloured blanks), full-width rows ending in plain blanks, the empty array between two frames, and one list object edited in place between renders. One FSArray edited row by row between renders; the same long rows rendered at every width.",
     "C03": "Also: single characters are reported as themselves under CURSES and BYTES naming too, and an encoding behaves the same under every name the codec registry knows it by (UTF-8 / U8, ANSI_X3.4-1968 / 646, iso8859-1 / L1). The decoder under an incremental-codec rewrite is followed (stateful codecs live on between calls); an Input left and re-entered with keys buffered; Inputs used while the locale's encoding changes.",
